@@ -6,7 +6,7 @@ import random
 import tempfile
 
 from common import Recorder, guarded, main
-from gen import specs1, specs, build_fiber, build_tensor, spec_key, random_spec
+from gen import specs1, specs, build_fiber, build_tensor, spec_key, random_spec, scale_spec
 from spec.oracle import raw, is_fiber, is_box, unbox, content, tensor_snapshot, ident_set
 
 from fibertree import Fiber, Tensor, Payload, TensorImage, TreeImage, UncompressedImage
@@ -269,10 +269,26 @@ def run(tier, seed):
             break
         rec.case("render", spec_key(spec))
         check_render(rec, "render", 2, 2, spec)
+    # at scale: wider operands (8-20 coordinates per rank) for the same operation families
+    for _ in range(25 if tier == "quick" else 300):
+        n = rnd.choice([8, 12, 20])
+        spec = random_spec(rnd, 2, n, p_present=rnd.choice([0.3, 0.7]))
+        opname = rnd.choice(list(TENSOR_OPS))
+        rec.case("scale", (2, spec_key(spec), opname))
+        check_tensor_op(rec, "scale", 2, n, spec, "plain", opname)
+        a, na = scale_spec(rnd, vals=(0, 1), count=rnd.choice([10, 30]))
+        b, nb = scale_spec(rnd, vals=(0, 1), count=rnd.choice([10, 30]))
+        fop = rnd.choice(list(FIBER_OPS))
+        nn = max(na, nb)
+        rec.case("scale", (spec_key(a), spec_key(b), fop))
+        check_fiber_op(rec, "scale", nn, a, b, fop, rnd.random() < 0.5)
+        rec.case("scale", ("reads", spec_key(spec)))
+        check_reads(rec, "scale", 2, n, spec)
     return rec.result("every depth-2 tree over 2 coordinates x every value-returning tensor operation (splits, swizzle, swap, flatten(x2), unflatten, merge, "
                       "update*, deepcopy), seeded random depth-3 operands incl. operands prepared by an earlier flatten/split; fiber-level + * / // splits "
                       "copies over all pairs of depth-1 fibers; read-only families (reads, iteration, co-iteration, ==, queries, printing, YAML, "
-                      "uncompress, footprints) and image rendering twice; deep snapshots and object-identity sets before/after, then follow-up mutation of each side")
+                      "uncompress, footprints) and image rendering twice; deep snapshots and object-identity sets before/after, then follow-up mutation of each side; "
+                      "plus seeded random operands at scale (8-20 coordinates per rank, leaf fibers of 10-30 elements)")
 
 
 def replay(case):
